@@ -291,8 +291,7 @@ theorem print_is_read (tbl : ParenTable) (t : SExpr) (h : wfs t = true) : Reads 
   exact lower t.level 1 (Nat.le_refl _) hl.1 hl.2 (print_reads tbl t h)
 
 /-- print then PARSE = identity -/
-theorem parse_print (tbl : ParenTable) (t : SExpr) (h : wfs t = true) :
-    ∃ f0, ∀ f, f0 ≤ f → pExpr f (printWith tbl t) = some (t, []) :=
-  parser_is_standard_reading (print_is_read tbl t h)
+theorem parse_print (tbl : ParenTable) (t : SExpr) (h : wfs t = true) : parseToks (printWith tbl t) = some t :=
+  parseToks_complete (print_is_read tbl t h)
 
 end Bartiq
